@@ -81,6 +81,7 @@ Definition step (code : list ipos) (s : mstate) : mresult :=
       | IBin op => match binop op (ra r) (rb r) with Ok v => MRunning (next (set_a s v)) | Err e => MError e p s end
       | INot => match unary_not (ra r) with Ok v => MRunning (next (set_a s v)) | Err e => MError e p s end
       | INegate => match negate (ra r) with Ok v => MRunning (next (set_a s v)) | Err e => MError e p s end
+      | IAlloc q => MRunning (next (set_a s (default_of q)))
       | ICast q => match cast (ra r) q with Ok v => MRunning (next (set_a s v)) | Err e => MError e p s end
       | ILabel _ => MRunning (next s)
       | IJump (TAddr a) => MRunning (goto s a)
